@@ -143,6 +143,7 @@ class ProcGlobals:
         slots, values = module_state_baseline()
         self.slots = slots
         self.values = copy.deepcopy(values)  # one deepcopy: objects shared between two names stay shared
+        self.environ = dict(os.environ)  # a spawned worker starts with a copy of the environment and owns it afterwards
 
     @staticmethod
     def capture():
@@ -151,6 +152,7 @@ class ProcGlobals:
         g.py_state = pyrandom.getstate()
         g.slots = module_state_baseline()[0]
         g.values = [getattr(o, a, None) for o, a in g.slots]
+        g.environ = dict(os.environ)
         return g
 
     def install(self):
@@ -161,6 +163,13 @@ class ProcGlobals:
                 setattr(o, a, v)
             except (AttributeError, TypeError):
                 pass
+        if dict(os.environ) != self.environ:
+            for k in list(os.environ):
+                if k not in self.environ:
+                    del os.environ[k]
+            for k, v in self.environ.items():
+                if os.environ.get(k) != v:
+                    os.environ[k] = v
 
     @property
     def atol(self):
